@@ -241,3 +241,5 @@ V("C20", "option_merge_after_load", "violation", (SYSTEM, "        self._config_
 V("C20", "alt_key_typo", "violation", (PFLOW, "                              check_conn=(0, 1),\n                              max_iter=\">=10\",", "                              check_con=(0, 1),\n                              max_iter=\">=10\","), rule="C20.tables")
 V("C20", "check_not_raising", "violation", (COMMONF, "            if val not in _alt:\n                raise ValueError(f\"[{self._name}].{key}={val} is not a choice from {_alt}.\")", "            if val not in _alt:\n                logger.warning(f\"[{self._name}].{key}={val} is not a choice from {_alt}.\")"), rule="C20.alternatives")
 V("C20", "benign_help_text", "silent", (PFLOW, "report=\"write output report\",", "report=\"write the output report\","))
+
+V("C08", "zero_band_uses_modulus", "violation", (EIG, "np.count_nonzero(abs(mu_real) <= self.config.tol)", "np.count_nonzero(abs(self.mu) <= self.config.tol)"), rule="C08.partition")
